@@ -3,7 +3,7 @@
    (sequentially), with what the harness saw on every connection: how Handle ended,
    what it did on the connection (reads, empty reads, idle deadlines waited out,
    writes) and the honeytrap goroutines / listening sockets / descriptors held above
-   the baseline after it. *)
+   the baseline right after it. *)
 From HT Require Import Common.Bytes C09.Model.
 Open Scope Z_scope.
 
@@ -20,9 +20,11 @@ Record case := mkCase {
   k_scn : scn;
   k_segs : list bytes;
   k_term : term;
-  k_n : N;                 (* connections requested *)
-  k_obs : list obs;        (* connections run (the history stops at a handler that does not return) *)
-  k_gc : Z * Z * Z         (* goroutines, listeners, descriptors after a forced GC (0,0,0 if the history stopped) *)
+  k_n : N;                       (* connections requested *)
+  k_obs : list obs;              (* connections run (the history stops at a handler that does not return) *)
+  k_gc : Z * Z * Z;              (* goroutines, listeners, descriptors after a forced GC (0,0,0 if the history stopped) *)
+  k_settled : option (Z * Z * Z) (* the same once one passive-socket timeout has passed; measured only
+                                    when a recovered panic left something behind *)
 }.
 
 Definition conn_of (k : case) : conn := mkConn (k_segs k) (k_term k) m0.
@@ -36,24 +38,16 @@ Definition wbytes_modelled (s : svc) : bool :=
   match s with Ftp | Smtp => false | _ => true end.
 
 Definition res_eqb (r : res) (g l f : Z) : bool := (r_gor r =? g) && (r_lis r =? l) && (r_fds r =? f).
+Definition triple_eqb (r : res) (t : Z * Z * Z) : bool := let '(g, l, f) := t in res_eqb r g l f.
 
 (* does observation [o] of the j-th connection (j >= 1) agree with the model? *)
 Definition obs_agrees (k : case) (h : hres) (j : Z) (o : obs) : bool :=
   let m := c_m (h_conn h) in
-  (o_out o =? out_code (h_out h))%N &&
-  match h_out h with
-  | OutOfFuel => (1000 <? o_reads o)%N        (* looping: only "it keeps reading" is compared *)
-  | Unmodelled => false
-  | _ =>
-      (o_reads o =? m_reads m)%N && (o_zero o =? m_zero m)%N && (o_timeouts o =? m_timeouts m)%N &&
-      (o_eofs o =? m_eofs m)%N && (o_writes o =? m_writes m)%N &&
-      (if wbytes_modelled (sc_svc (k_scn k)) then (o_wbytes o =? m_wbytes m)%N else true) &&
-      (* descriptors of a blocked handler are not compared (its own connection is still open) *)
-      match h_out h with
-      | Blocked => (o_gor o =? r_gor (h_res h)) && (o_lis o =? r_lis (h_res h))
-      | _ => res_eqb (res_scale j (h_res h)) (o_gor o) (o_lis o) (o_fds o)
-      end
-  end.
+  (o_out o =? out_code (h_out h))%N && finished (h_out h) &&
+  (o_reads o =? m_reads m)%N && (o_zero o =? m_zero m)%N && (o_timeouts o =? m_timeouts m)%N &&
+  (o_eofs o =? m_eofs m)%N && (o_writes o =? m_writes m)%N &&
+  (if wbytes_modelled (sc_svc (k_scn k)) then (o_wbytes o =? m_wbytes m)%N else true) &&
+  res_eqb (res_scale j (h_res h)) (o_gor o) (o_lis o) (o_fds o).
 
 Fixpoint all_agree (k : case) (h : hres) (j : Z) (os : list obs) : bool :=
   match os with
@@ -61,21 +55,17 @@ Fixpoint all_agree (k : case) (h : hres) (j : Z) (os : list obs) : bool :=
   | o :: r => obs_agrees k h j o && all_agree k h (j + 1) r
   end.
 
-(* goroutines and listeners pinned by a goroutine survive a GC; a listener whose accept
-   goroutine has finished is closed by its finalizer - the model cannot exhibit the
-   collector, it only says which are pinned: the unconnected ones (= goroutines - pump) *)
+(* right after the history (and a forced GC) N times what one connection leaves is there;
+   one passive-socket timeout later only what is on no timer *)
 Definition case_agrees (k : case) : bool :=
   let h := pred_of k in
-  let want := if finished (h_out h) then N.to_nat (k_n k) else 1%nat in
-  (length (k_obs k) =? want)%nat && all_agree k h 1 (k_obs k) &&
-  (if finished (h_out h)
-   then let '(g, l, _) := k_gc k in
-        (g =? Z.of_N (k_n k) * r_gor (h_res h)) &&
-        match sc_svc (k_scn k) with
-        | Ftp => (l =? Z.of_N (k_n k) * (r_gor (h_res h) - 1))
-        | _ => (l =? Z.of_N (k_n k) * r_lis (h_res h))
-        end
-   else true).
+  let n := Z.of_N (k_n k) in
+  (length (k_obs k) =? N.to_nat (k_n k))%nat && all_agree k h 1 (k_obs k) &&
+  (let '(g, l, _) := k_gc k in (g =? n * r_gor (h_res h)) && (l =? n * r_lis (h_res h))) &&
+  match k_settled k with
+  | Some t => triple_eqb (res_scale n (kept h)) t
+  | None => res_eqb (h_late h) 0 0 0
+  end.
 
 Definition mismatches (cs : list case) : list N :=
   map k_id (filter (fun k => negb (case_agrees k)) cs).
@@ -87,10 +77,12 @@ Definition MAX_DEADLINES : N := 3.
 
 Definition last_obs (k : case) : option obs := last (map Some (k_obs k)) None.
 
-Definition SIG_SPIN_DRAINED_DATAGRAM := 1%N.  (* ntp / echo behind the wrapper: io.Copy on (0, nil) *)
+(* signature codes: 1-6 and 12-14 are the defects repaired in /repo; a regression is
+   reported under the old name, with the connection script as replay *)
+Definition SIG_SPIN_DRAINED_DATAGRAM := 1%N.  (* ntp / echo on a datagram port: io.Copy on (0, nil) *)
 Definition SIG_ADB_DATAGRAM_FLOOD := 2%N.     (* adb: reply loop on (0, nil) *)
 Definition SIG_FTP_PASSIVE_WAIT := 3%N.       (* ftp: data command waits for ever for a passive client *)
-Definition SIG_FTP_GOROUTINES := 4%N.         (* ftp: event pump (+ accept goroutine per unconnected passive socket) *)
+Definition SIG_FTP_GOROUTINES := 4%N.         (* ftp: event pump / accept goroutine per past connection *)
 Definition SIG_FTP_LISTENERS := 5%N.          (* ftp: passive listener never closed *)
 Definition SIG_SMTP_GOROUTINE := 6%N.         (* smtp: pump goroutine per connection *)
 Definition SIG_NO_RETURN := 7%N.
@@ -98,14 +90,9 @@ Definition SIG_GOROUTINES := 8%N.
 Definition SIG_LISTENERS := 9%N.
 Definition SIG_DESCRIPTORS := 10%N.
 Definition SIG_DEADLINES := 11%N.
-Definition SIG_FTP_DATA_CONN := 12%N.         (* ftp: accepted data connection forgotten when the socket is replaced *)
+Definition SIG_FTP_DATA_CONN := 12%N.         (* ftp: accepted data connection forgotten *)
 Definition SIG_FTP_DIR_HANDLE := 13%N.        (* ftp: ListDir leaves the directory open *)
 Definition SIG_MEMCACHED_STORE_SPIN := 14%N.  (* memcached: io.ReadFull for a data block the datagram does not hold *)
-
-(* which of the two descriptor defects of ftp the faithful model sees in this case *)
-Definition ftp_fd_sigs (k : case) : list N :=
-  let '(_, s, _) := handle_ftp_st (sc_v6 (k_scn k)) (sc_dial (k_scn k)) (fuel_for (conn_of k)) (conn_of k) in
-  (if 0 <? f_dconns s then [SIG_FTP_DATA_CONN] else []) ++ (if 0 <? f_dirs s then [SIG_FTP_DIR_HANDLE] else []).
 
 Definition is_svc (k : case) (s : svc) : bool :=
   match sc_svc (k_scn k), s with
@@ -113,41 +100,45 @@ Definition is_svc (k : case) (s : svc) : bool :=
   | _, _ => false
   end.
 
-Definition is_zero_term (k : case) : bool := match k_term k with TZero => true | _ => false end.
+Definition is_udp (k : case) : bool := sc_udp (k_scn k).
+Definition dialled (k : case) : bool := connected (sc_dial (k_scn k)).
 
-(* a pinned-down defect gets its own signature only when the whole case is exactly what
-   the faithful model predicts; anything else keeps the generic signature *)
+(* what the process holds in the end: one passive-socket timeout after the history where
+   that was measured, else right after it *)
+Definition final_held (k : case) (o : obs) : Z * Z * Z :=
+  match k_settled k with Some t => t | None => (o_gor o, o_lis o, o_fds o) end.
+
 Definition case_sigs (k : case) : list N :=
-  let ok := case_agrees k in
   match last_obs k with
   | None => [SIG_NO_RETURN]
   | Some o =>
-      (if (o_out o =? 2)%N || (o_out o =? 3)%N then
-         [if ok && (o_out o =? 2)%N && is_zero_term k && (is_svc k Ntp || is_svc k Echo) then SIG_SPIN_DRAINED_DATAGRAM
-          else if ok && (o_out o =? 2)%N && is_zero_term k && is_svc k Adb then SIG_ADB_DATAGRAM_FLOOD
-          else if ok && (o_out o =? 2)%N && is_zero_term k && is_svc k Memcached then SIG_MEMCACHED_STORE_SPIN
-          else if ok && (o_out o =? 3)%N && is_svc k Ftp then SIG_FTP_PASSIVE_WAIT
-          else SIG_NO_RETURN]
-       else
-         (if existsb (fun o' => (MAX_DEADLINES <? o_timeouts o')%N) (k_obs k) then [SIG_DEADLINES] else []) ++
-         (if o_gor o =? 0 then []
-          else [if ok && is_svc k Ftp then SIG_FTP_GOROUTINES
-                else if ok && is_svc k Smtp then SIG_SMTP_GOROUTINE else SIG_GOROUTINES]) ++
-         (if o_lis o =? 0 then [] else [if ok && is_svc k Ftp then SIG_FTP_LISTENERS else SIG_LISTENERS]) ++
-         (if o_fds o - o_lis o =? 0 then []
-          else if ok && is_svc k Ftp then ftp_fd_sigs k else [SIG_DESCRIPTORS]))
+      if (o_out o =? 2)%N || (o_out o =? 3)%N then
+        [if (o_out o =? 2)%N && is_udp k && (is_svc k Ntp || is_svc k Echo) then SIG_SPIN_DRAINED_DATAGRAM
+         else if (o_out o =? 2)%N && is_udp k && is_svc k Adb then SIG_ADB_DATAGRAM_FLOOD
+         else if (o_out o =? 2)%N && is_udp k && is_svc k Memcached then SIG_MEMCACHED_STORE_SPIN
+         else if (o_out o =? 3)%N && is_svc k Ftp then SIG_FTP_PASSIVE_WAIT
+         else SIG_NO_RETURN]
+      else
+        let '(g, l, f) := final_held k o in
+        (if existsb (fun o' => (MAX_DEADLINES <? o_timeouts o')%N) (k_obs k) then [SIG_DEADLINES] else []) ++
+        (if g =? 0 then []
+         else [if is_svc k Ftp then SIG_FTP_GOROUTINES else if is_svc k Smtp then SIG_SMTP_GOROUTINE else SIG_GOROUTINES]) ++
+        (if l =? 0 then [] else [if is_svc k Ftp then SIG_FTP_LISTENERS else SIG_LISTENERS]) ++
+        (if f - l =? 0 then []
+         else [if is_svc k Ftp then (if dialled k then SIG_FTP_DATA_CONN else SIG_FTP_DIR_HANDLE) else SIG_DESCRIPTORS])
   end.
 
 Definition violations (cs : list case) : list (N * N) :=
   flat_map (fun k => map (fun s => (k_id k, s)) (case_sigs k)) cs.
 
-(* tags: 1 TZero source, 2 silent source, 4 history longer than one connection,
-   8 the model predicts a handler that does not finish, 16 resources predicted *)
+(* tags: 1 datagram, 2 silent source, 4 history longer than one connection,
+   8 recovered panic predicted, 16 something held when Handle is over *)
 Definition tags (cs : list case) : list (N * N) :=
   map (fun k =>
     let h := pred_of k in
     (k_id k,
-     (match k_term k with TZero => 1 | TTimeout => 2 | TEof => 0 end) +
+     (if is_udp k then 1 else 0) +
+     (match k_term k with TTimeout => 2 | TEof => 0 end) +
      (if (1 <? k_n k) then 4 else 0) +
-     (if finished (h_out h) then 0 else 8) +
+     (match h_out h with Panicked => 8 | _ => 0 end) +
      (if res_eqb (h_res h) 0 0 0 then 0 else 16))%N) cs.
